@@ -26,12 +26,13 @@ theorem KI.log (h : KI act s a) (p : EvId) (seq : Nat) :
 def aResend (a : A) (seq : Nat) : A :=
   { a with S := (a.S.resend seq).1, txs := a.txs ++ (a.S.resend seq).2.map txPair }
 
-theorem frag_resend (h : KI (some p) s a) (seq : Nat) (cont : B ℚ) :
-    ∃ s', runBurst p (sndResend a.S.now seq cont) s = runBurst p cont s' ∧ KI (some p) s' (aResend a seq) := by
+theorem frag_resend (h : KI (some p) s a) (seq : Nat) {now : ℚ} (hnow : a.S.now = now) :
+    ∃ s', (∀ cont, runBurst p (sndResend now seq cont) s = runBurst p cont s') ∧ KI (some p) s' (aResend a seq) := by
+  subst hnow
   unfold sndResend
   cases hg : AL.get? seq a.S.sent with
   | none =>
-    refine ⟨s, ?_, ?_⟩
+    refine ⟨s, fun cont => ?_, ?_⟩
     · rw [rb_loadOptTime (o := none) (by rw [h.c.sent seq, hg])]
     · have : aResend a seq = a := by
         unfold aResend Sender.resend
@@ -39,7 +40,7 @@ theorem frag_resend (h : KI (some p) s a) (seq : Nat) (cont : B ℚ) :
         simp
       rw [this]; exact h
   | some t0 =>
-    refine ⟨(setCell s (cSent seq) (TimeCell.enc a.S.now)).emit (.log p "tx" (.int seq) s.now), ?_, ?_⟩
+    refine ⟨(setCell s (cSent seq) (TimeCell.enc a.S.now)).emit (.log p "tx" (.int seq) s.now), fun cont => ?_, ?_⟩
     · rw [rb_loadOptTime (o := some t0) (by rw [h.c.sent seq, hg])]
       simp only [rb_storeTime, rb_log]
       rfl
@@ -59,10 +60,10 @@ theorem KI.congr {a' : A} (h : KI act s a) (e : a = a') : KI act s a' := e ▸ h
 
 /-! ## `Timer.stop`, `Timer.restart`, `Timer.__init__` -/
 
-theorem frag_tmStop (h : KI act s a) (now : ℚ) (seq : Nat) (cont : B ℚ) :
-    ∃ s', runBurst p (tmStop now seq cont) s = runBurst p cont s' ∧
+theorem frag_tmStop (h : KI act s a) (now : ℚ) (seq : Nat) :
+    ∃ s', (∀ cont, runBurst p (tmStop now seq cont) s = runBurst p cont s') ∧
       KI act s' { a with tmc := upd a.tmc seq { a.tmc seq with stopped := true, expire := now } } := by
-  refine ⟨setCell (setCell s (cTmStopped seq) (.int 1)) (cTmExpire seq) (TimeCell.enc now), ?_, ?_⟩
+  refine ⟨setCell (setCell s (cTmStopped seq) (.int 1)) (cTmExpire seq) (TimeCell.enc now), fun cont => ?_, ?_⟩
   · simp only [tmStop, rb_storeNat, rb_storeTime]
     rfl
   · refine ((h.set_stopped seq true).set_expire seq now).congr ?_
@@ -70,14 +71,14 @@ theorem frag_tmStop (h : KI act s a) (now : ℚ) (seq : Nat) (cont : B ℚ) :
 
 /-- `restart(tau)` called by the timer's own process: the kernel refuses the self-interrupt -/
 theorem frag_tmRestart (h : KI (some p) s a) {seq : Nat} (hs : seq ∈ a.tks) (hp : a.tmp seq = p)
-    (hph : a.tph seq = .running) (now tau : ℚ) (cont : B ℚ) :
-    ∃ s', runBurst p (tmRestart now seq tau cont) s = runBurst p cont s' ∧
+    (hph : a.tph seq = .running) (now tau : ℚ) :
+    ∃ s', (∀ cont, runBurst p (tmRestart now seq tau cont) s = runBurst p cont s') ∧
       KI (some p) s' { a with tmc := upd a.tmc seq { a.tmc seq with start := now, timeout := tau, expire := now + tau } } := by
   have h3 := ((h.set_start seq now).set_timeout seq tau).set_expire seq (now + tau)
   have hev := h3.k.tm seq hs
   simp only [kernOf, hph, hp, TmEv] at hev
   refine ⟨KState.emit (setCell (setCell (setCell s (cTmStart seq) (TimeCell.enc now)) (cTmTimeout seq) (TimeCell.enc tau))
-    (cTmExpire seq) (TimeCell.enc (now + tau))) (.callErr p (runtimeErr "self") s.now), ?_, ?_⟩
+    (cTmExpire seq) (TimeCell.enc (now + tau))) (.callErr p (runtimeErr "self") s.now), fun cont => ?_, ?_⟩
   · simp only [tmRestart, rb_storeTime]
     rw [rb_loadProc (e := p) (by rw [h3.c.proc seq hs]; exact congrArg Val.ev hp)]
     simp only [runBurst, doCall_interrupt_self _ p p _ hev.1 hev.2.2 h3.k.act, noteErr]
@@ -87,8 +88,8 @@ theorem frag_tmRestart (h : KI (some p) s a) {seq : Nat} (hs : seq ∈ a.tks) (h
     simp only [upd_upd, upd_same]
 
 /-- `Timer(env, timeout=tmo, …, args=seq)` for a new segment, by the process that is executing -/
-theorem frag_mkTimer (h : KI (some p) s a) {seq : Nat} (hseq : seq ∉ a.tks) {tmo : ℚ} (hpos : 0 < tmo) (cont : B ℚ) :
-    ∃ s', runBurst p (mkTimer a.S.now seq tmo cont) s = runBurst p cont s' ∧
+theorem frag_mkTimer (h : KI (some p) s a) {seq : Nat} (hseq : seq ∉ a.tks) {tmo : ℚ} (hpos : 0 < tmo) :
+    ∃ s', (∀ cont, runBurst p (mkTimer a.S.now seq tmo cont) s = runBurst p cont s') ∧
       KI (some p) s' { a with tks := a.tks ++ [seq], tmp := upd a.tmp seq s.events.size,
                               tph := upd a.tph seq (.init ⟨a.S.now, URGENT, s.eid, s.events.size + 1⟩),
                               tmc := upd a.tmc seq ⟨false, a.S.now + tmo, tmo, a.S.now⟩ } := by
@@ -96,7 +97,7 @@ theorem frag_mkTimer (h : KI (some p) s a) {seq : Nat} (hseq : seq ∉ a.tks) {t
   rw [← hn]
   refine ⟨setCell (spawnSt (setCell (setCell (setCell (setCell s (cTmTimeout seq) (TimeCell.enc tmo)) (cTmStart seq)
     (TimeCell.enc s.now)) (cTmExpire seq) (TimeCell.enc (s.now + tmo))) (cTmStopped seq) (.int (0 : Nat)))
-    (.tmStart seq s.now)) (cTmProc seq) (.ev s.events.size), ?_, ?_, ?_⟩
+    (.tmStart seq s.now)) (cTmProc seq) (.ev s.events.size), fun cont => ?_, ?_, ?_⟩
   · have : ¬ tmo ≤ (Num.zero : ℚ) := by rw [zero_eq']; exact not_le.mpr hpos
     simp only [mkTimer, this, if_false, rb_storeTime, rb_storeNat, rb_spawn, rb_storeVal]
     rfl
@@ -147,13 +148,10 @@ theorem resend_now (S : Sender ℚ) (seq : Nat) : (S.resend seq).1.now = S.now :
   cases AL.get? seq S.sent <;> rfl
 
 theorem frag_timeout {cfg : Cfg} (h : KI (some p) s a) {seq : Nat} (hs : seq ∈ a.tks) (hp : a.tmp seq = p)
-    (hph : a.tph seq = .running) (hkind : a.S.kind = cfg.kind) (hin : (AL.get? seq a.S.timers).isSome = true) (cont : B ℚ) :
-    ∃ s', runBurst p (sndTimeout cfg a.S.now seq cont) s = runBurst p cont s' ∧ KI (some p) s' (aFire a seq) := by
+    (hph : a.tph seq = .running) (hkind : a.S.kind = cfg.kind) (hin : (AL.get? seq a.S.timers).isSome = true) :
+    ∃ s', (∀ cont, runBurst p (sndTimeout cfg a.S.now seq cont) s = runBurst p cont s') ∧ KI (some p) s' (aFire a seq) := by
   have h2 := h.set_cc (CC.timerExpired a.S.kind a.S.cc)
-  obtain ⟨s3, r3, h3⟩ := frag_resend h2 seq
-    (estCall TCPPacketGenerator.timeout_backoff <|
-      loadFlag (cTmIn seq) fun present =>
-        if present then loadTime cRto fun rto => tmRestart a.S.now seq rto cont else .raise keyErr)
+  obtain ⟨s3, r3, h3⟩ := frag_resend h2 seq (now := a.S.now) rfl
   have h4 := h3.set_est (TCPPacketGenerator.timeout_backoff
     (aResend { a with S := { a.S with cc := CC.timerExpired a.S.kind a.S.cc } } seq).S.est)
   have hin4 : (AL.get? seq (aResend { a with S := { a.S with cc := CC.timerExpired a.S.kind a.S.cc } } seq).S.timers).isSome
@@ -161,14 +159,14 @@ theorem frag_timeout {cfg : Cfg} (h : KI (some p) s a) {seq : Nat} (hs : seq ∈
     show (AL.get? seq (Sender.resend _ seq).1.timers).isSome = true
     rw [resend_timers]; exact hin
   obtain ⟨s5, r5, h5⟩ := frag_tmRestart h4 (seq := seq) hs hp hph a.S.now
-    (TCPPacketGenerator.timeout_backoff (aResend { a with S := { a.S with cc := CC.timerExpired a.S.kind a.S.cc } } seq).S.est).rto cont
-  refine ⟨s5, ?_, ?_⟩
+    (TCPPacketGenerator.timeout_backoff (aResend { a with S := { a.S with cc := CC.timerExpired a.S.kind a.S.cc } } seq).S.est).rto
+  refine ⟨s5, fun cont => ?_, ?_⟩
   · unfold sndTimeout
     rw [← hkind, rb_ccCall h, r3, rb_estCall h3]
     rw [rb_loadFlag (b := true) (by rw [h4.c.tin seq]; simp only [hin4])]
     simp only [if_true]
     rw [rb_loadTime h4.c.rto]
-    exact r5
+    exact r5 cont
   · have h6 := h5.upd_timer seq (Sender.arm a.S.now
       (TCPPacketGenerator.timeout_backoff (aResend { a with S := { a.S with cc := CC.timerExpired a.S.kind a.S.cc } } seq).S.est).rto)
       hin4
